@@ -12,7 +12,7 @@ LEVEL = "exploration"
 RULE = ("altitude lattice -500..20000 m step 25 m (thorough 5 m) plus 11000 +- {1e-9,1e-6,1e-3,1} and the float "
         "neighbours of 11000; speed lattice 0.5..450 m/s step 0.5; Mach 0.01..1.30 step 0.01; every (altitude, speed) "
         "pair through the ndarray path and a sub-lattice element-wise through the scalar path; coordinates on a 15-degree "
-        "(thorough 7.5) lattice incl. poles, antimeridian, coincident and antipodal pairs; distinct = lattice points")
+        "(thorough 7.5) lattice incl. poles, antimeridian, coincident and antipodal pairs; argument buffers reused and updated in place between calls and returned arrays overwritten by the caller; distinct = lattice points")
 ASSUMPTIONS = ["real-valued domain: nothing is claimed between lattice points",
                "ISA reference from ISO 2533 constants; tolerance 0.1 % as the property states",
                "round trips within 1e-7 relative (the (1+x)^3.5-1 form loses ~1e-10 at 0.5 m/s)",
@@ -113,6 +113,60 @@ def w_tropopause(_):
     return acc.res()
 
 
+def w_alias(_):
+    """callers that reuse and update an altitude / speed buffer in place between calls, and that modify returned arrays:
+    every call must still equal the result for a freshly allocated argument."""
+    acc = Acc()
+    fns1 = [aero.pressure, aero.density, aero.temperature, aero.vsound]
+    fns2 = [aero.tas2cas, aero.cas2tas, aero.tas2eas, aero.eas2tas, aero.tas2mach, aero.mach2tas, aero.mach2cas, aero.cas2mach]
+    steps = [0.0, 5000.0, -300.0, 6000.0, 11000.0 - 10700.0, 9000.0, -20000.0]
+    for f in fns1:
+        H = np.array([0.0, 5000.0, 10900.0])
+        for dh in steps:
+            H += dh                                    # in-place update of the caller's buffer
+            got = np.array(f(H), dtype=float)
+            want = np.array([float(f(float(h))) for h in H])
+            acc.n += 1
+            if not np.allclose(got, want, rtol=1e-9, atol=0):
+                acc.bad("isa:stale_result_for_reused_argument_buffer", {"kind": "alias", "f": f.__name__})
+            r = f(H)
+            if isinstance(r, np.ndarray):
+                r *= 0.0                                   # caller scribbles on the returned array
+    for f in fns2:
+        H = np.array([0.0, 3000.0, 10900.0])
+        V = np.array([0.3, 100.0, 250.0]) if "mach" in f.__name__[:4] else np.array([60.0, 150.0, 260.0])
+        if f.__name__.startswith("mach"):
+            V = np.array([0.3, 0.6, 0.85])
+        for k, dh in enumerate(steps):
+            H += dh
+            V *= 1.01
+            got = np.array(f(V, H), dtype=float)
+            want = np.array([float(f(float(v), float(h))) for v, h in zip(V, H)])
+            acc.n += 1
+            if not np.allclose(got, want, rtol=1e-9, atol=0):
+                acc.bad("conv:stale_result_for_reused_argument_buffer", {"kind": "alias", "f": f.__name__})
+            r = f(V, H)
+            if isinstance(r, np.ndarray):
+                r *= 0.0
+        # the arguments themselves must not be modified by the call
+        H0, V0 = H.copy(), V.copy()
+        f(V, H)
+        acc.n += 1
+        if not (np.array_equal(H, H0) and np.array_equal(V, V0)):
+            acc.bad("conv:argument_array_modified_by_the_call", {"kind": "alias", "f": f.__name__})
+    # scalar calls interleaved with array calls on equal values
+    for f in fns1:
+        a = float(f(11000.0))
+        f(np.array([0.0, 11000.0]))
+        b = float(f(11000.0))
+        acc.n += 1
+        if a != b:
+            acc.bad("isa:scalar_result_depends_on_previous_array_call", {"kind": "alias", "f": f.__name__})
+    acc.out.add(("alias",))
+    acc.out.add(("alias2",))
+    return acc.res()
+
+
 def coords(step):
     lats = sorted(set(list(np.arange(-90, 90.0001, step)) + [-89.999, 89.999, 0.0, 1e-7]))
     lons = sorted(set(list(np.arange(-180, 180.0001, step)) + [179.999, -179.999, 0.0]))
@@ -165,7 +219,7 @@ def w_geo(arg):
 
 
 def w_any(t):
-    return {"a": w_alt, "t": w_tropopause, "g": w_geo}[t[0]](t[1])
+    return {"a": w_alt, "t": w_tropopause, "g": w_geo, "x": w_alias}[t[0]](t[1])
 
 
 def run(ctx):
@@ -173,7 +227,7 @@ def run(ctx):
     step = 7.5 if ctx.thorough else 15.0
     lats, lons = coords(step)
     pts = [(a, b) for a in lats for b in lons] + [(10.0, 20.0), (52.3, 4.8), (-33.9, 151.2)]
-    tasks = [("t", None)] + [("a", c) for c in chunks(A, 16)] + [("g", (c, step)) for c in chunks(pts, 12)]
+    tasks = [("t", None), ("x", None)] + [("a", c) for c in chunks(A, 16)] + [("g", (c, step)) for c in chunks(pts, 12)]
     ctx.pmap(w_any, tasks)
     ctx.cov["altitudes"] = len(A)
     ctx.cov["speeds"] = int(V.size)
@@ -185,6 +239,8 @@ def replay(case):
     if case["kind"] == "alt":
         r = w_alt([float.fromhex(case["H_hex"])])
         return r["viols"]
+    if case["kind"] == "alias":
+        return w_alias(None)["viols"]
     if case["kind"] == "trop":
         return w_tropopause(None)["viols"]
     s = judge_geo(*case["p"])
